@@ -171,7 +171,14 @@ impl Oplog {
                     let mut entries: Vec<Entry> = Vec::new();
                     let mut partials: Vec<bool> = Vec::new();
                     let mut entries_byte_length: u64 = 0;
+                    // Entries carry the header bit that was current when they were written. Ones
+                    // with the other bit are already part of the header that was stored last and
+                    // are just waiting to be truncated away.
+                    let header_bit = outcome.oplog.get_current_header_bit();
                     while let Some(entry_outcome) = Self::validate_leader(entries_buff)? {
+                        if entry_outcome.header_bit != header_bit {
+                            break;
+                        }
                         let res = Entry::decode(entry_outcome.state)?;
                         entries.push(res.0);
                         entries_byte_length += (entries_buff.len() - res.1.len()) as u64;
